@@ -81,6 +81,14 @@ func init() {
 
 	addProp(&Prop{ID: "C03", DesignRef: "DESIGN.md §4 C03", Runs: []HarnessRun{idxConsume, segConsume, qConsume, cursor}})
 	addProp(&Prop{ID: "C04", DesignRef: "DESIGN.md §4 C04", Runs: []HarnessRun{idxGet, segGet, qGet}})
-	addProp(&Prop{ID: "C10", DesignRef: "DESIGN.md §4 C10", Runs: []HarnessRun{idxTime}})
+	qTime := HarnessRun{Name: "h_log.QueryTime", Quick: dirQ, Thorough: dirT, Split: layoutSplit,
+		Reach: []string{"index-rebuilt", "no-live-message", "empty-head", "after-all", "equal-run", "multi-segment", "empty-head-with-older-segments"}}
+	noIndex := HarnessRun{Name: "h_log.NoIndex", Quick: B{"segs": 2, "recs": 1, "vers": 1, "profs": 1}, Split: layoutSplit, Reach: []string{"noindex"}}
+	addProp(&Prop{ID: "C10", DesignRef: "DESIGN.md §4 C10", Runs: []HarnessRun{idxTime, qTime, noIndex},
+		Assumptions: []string{"message times never decrease with offset and are not before 1970-01-01 (pre-1970 times: see known finding C10-negative-times)", "query times at 1 microsecond granularity"}})
+	qKey := HarnessRun{Name: "h_log.QueryKey", Quick: B{"segs": 2, "recs": 2, "vers": 3, "profs": 2, "keylen": 1}, Thorough: B{"segs": 3, "recs": 2, "vers": 4, "profs": 3, "keylen": 2}, Split: layoutSplit,
+		Reach: []string{"index-rebuilt", "uf:hash-collision", "absent", "present", "empty-key-present"}}
+	addProp(&Prop{ID: "C09", DesignRef: "DESIGN.md §4 C09", Runs: []HarnessRun{qKey, noIndex},
+		Assumptions: []string{"FNV-1a-64 is an uninterpreted function: the solver is free to make any two keys collide"}})
 	addProp(&Prop{ID: "C12", DesignRef: "DESIGN.md §4 C12", Runs: []HarnessRun{minOff}})
 }
